@@ -1069,7 +1069,10 @@ fn judge_input(input: &Input, cat: &BTreeSet<u16>, w: &mut WorkerCtx, hasher: &m
 					// that is declared with it (it does so for variables, constants, parameters and
 					// members)
 					let names_the_declared_item = input.class == "marker:type term in a position" && ["v", "K", "p", "m", "f", "T"].contains(&text_under.as_str());
-					if !normalise_span_text(&text_under).contains(normalise_span_text(want).as_str()) && !names_the_declared_item
+					// ... or at the declared name inside the term that makes it invalid (an opaque
+					// structure as element, a named length): the offender is then that name
+					let names_the_culprit_inside = input.class == "marker:type term in a position" && ["S", "W", "O", "N"].contains(&text_under.as_str()) && want.contains(text_under.as_str());
+					if !normalise_span_text(&text_under).contains(normalise_span_text(want).as_str()) && !names_the_declared_item && !names_the_culprit_inside
 					{
 						w.result.violation(&format!("span-does-not-cover-offender:{letter}{}", d.code), size, &desc, || {
 							format!("{}: {letter}{} covers {:?} ({}:{}, span {}..{}), the offending text is {:?} ({})\n{}", input.class, d.code, text_under, d.file, d.line, d.span_start, d.span_end, want, LAYOUTS[layout], show())
